@@ -10,6 +10,7 @@ G:    (a) every catalogue operator tagged `stream` on instrumented sources of TW
           pulls for k = 1..6 must be within the bound TLC computed (equality = model level) and equal at both lengths.
 V:    random deeper pipelines recorded as pull/yield event sequences, validated by LazyTrace.
 """
+import csv
 import contextlib
 import io
 import itertools
@@ -255,6 +256,7 @@ def check_extractors(chk, tmp):
         t = [['f', 'g', 'h']] + [[i, u'v%d' % i, u'text %d' % (i * 7)] for i in range(n)]
         etl.tocsv(t, os.path.join(tmp, 'x%d.csv' % n))
         etl.tocsv(t, os.path.join(tmp, 'x%d_16.csv' % n), encoding='utf-16')
+        etl.tocsv(t, os.path.join(tmp, 'x%d_lt.csv' % n), lineterminator=';\n')
         etl.totsv(t, os.path.join(tmp, 'x%d.tsv' % n))
         etl.topickle(t, os.path.join(tmp, 'x%d.p' % n))
         etl.tojson(t, os.path.join(tmp, 'x%d.jsonl' % n), lines=True)
@@ -262,6 +264,14 @@ def check_extractors(chk, tmp):
     ex = [('fromcsv', 'csv', lambda s: etl.fromcsv(s)), ('fromcsv(header=)', 'csv', lambda s: etl.fromcsv(s, header=['a', 'b', 'c'])),
           ('fromcsv(utf-16)', '_16.csv', lambda s: etl.fromcsv(s, encoding='utf-16')),
           ('fromcsv(errors=ignore, delimiter)', 'csv', lambda s: etl.fromcsv(s, encoding='utf-8', errors='ignore', delimiter=',')),
+          # csv dialect arguments, also the ones csv.reader ignores (lineterminator) - none of them may change how much is read
+          ("fromcsv(lineterminator=';\\n')", 'csv', lambda s: etl.fromcsv(s, lineterminator=';\n')),
+          ("fromcsv(lineterminator=';\\n') on a file written with it", '_lt.csv', lambda s: etl.fromcsv(s, lineterminator=';\n')),
+          ("fromcsv(lineterminator='|', quoting, quotechar)", 'csv', lambda s: etl.fromcsv(s, lineterminator='|', quoting=csv.QUOTE_MINIMAL, quotechar="'")),
+          ('fromcsv(doublequote=False, escapechar, skipinitialspace, strict)', 'csv',
+           lambda s: etl.fromcsv(s, doublequote=False, escapechar='\\', skipinitialspace=True, strict=True)),
+          ("fromcsv(dialect='excel-tab') on the tsv file", 'tsv', lambda s: etl.fromcsv(s, dialect='excel-tab')),
+          ("fromtsv(lineterminator='\\r\\r')", 'tsv', lambda s: etl.fromtsv(s, lineterminator='\r\r')),
           ('fromtsv', 'tsv', lambda s: etl.fromtsv(s)),
           ('frompickle', 'p', lambda s: etl.frompickle(s)),
           ('fromtext', 'txt', lambda s: etl.fromtext(s)), ('fromtext(strip=False)', 'txt', lambda s: etl.fromtext(s, strip=False)),
@@ -271,6 +281,7 @@ def check_extractors(chk, tmp):
           ('fromcsv |> convert |> select', 'csv', lambda s: etl.select(etl.convert(etl.fromcsv(s), 'f', int), lambda r: r[0] % 2 == 0))]
     for name, ext, mk in ex:
         res = []
+        raised = None
         for n in sizes:
             src = CountingSource(os.path.join(tmp, 'x%d%s%s' % (n, '' if ext.startswith('_') else '.', ext)))
             v = mk(src)
@@ -278,7 +289,11 @@ def check_extractors(chk, tmp):
             per_k = []
             for k in (1, 5, 40):
                 before = src.counter[0]
-                rows = list(itertools.islice(iter(v), k + 1))
+                try:
+                    rows = list(itertools.islice(iter(v), k + 1))
+                except Exception as e:          # reported below (-1): reading the first rows of a well-formed file never raises
+                    rows = []
+                    raised = repr(e)
                 per_k.append(src.counter[0] - before)
                 if len(rows) != k + 1:
                     per_k.append(-1)
@@ -292,7 +307,7 @@ def check_extractors(chk, tmp):
         elif res[0][1] != res[1][1] or max(res[1][1]) > 4 * 65536 or -1 in res[1][1]:
             chk.violation(dict(sig, clause='length-dependence'),
                           '%s: bytes read for 1, 5, 40 rows are %r on a %d-row file and %r on a %d-row file (must be equal and within a few buffers)'
-                          % (name, res[0][1], sizes[0], res[1][1], sizes[1]), {'kind': 'extractor', 'name': name})
+                          % (name, res[0][1], sizes[0], res[1][1], sizes[1]) + (' - raised %s' % raised if raised else ''), {'kind': 'extractor', 'name': name})
 
 
 def check_sequences(chk):
